@@ -271,6 +271,26 @@ def ref_aes_wrap(kek, data):
     return a + b"".join(rr)
 
 
+# byte strings that are TEXT under some encoding (passwords, passphrases, labels: what key material, salts and messages
+# often are): ASCII, UTF-8 precomposed / decomposed / compatibility forms, full-width digits, ligatures, UTF-16 with a
+# byte order mark, control characters, leading / trailing blanks and zero bytes.  The server must treat them as bytes.
+TEXTY = [b"password", b"pass word ", b" password", b"Password\n", b"pa\x00ss", b"\x00\x00secret", b"secret\x00\x00",
+         "Ame\u0301lie".encode(), "Am\u00e9lie".encode(), "\u212bngstr\u00f6m".encode(), "\u00c5ngstr\u00f6m".encode(),
+         "\ufb01sh".encode(), "fish".encode(), "pin\uff11\uff12\uff13\uff14".encode(), "pin1234".encode(),
+         "\u2126hm".encode(), "\u03a9hm".encode(), "stra\u00dfe".encode(), "STRASSE".encode(),
+         "caf\u00e9".encode("utf-16"), "cafe\u0301".encode("utf-16-le"), "\u00e9".encode("latin-1") * 5,
+         "\u1e9b\u0323".encode(), "\u1e9b\u0323".encode() * 4, "x\u00adyz".encode(), "\ud55c\uae00".encode(),
+         "\u1112\u1161\u11ab".encode(), b"\xef\xbb\xbfkey", b"A" * 16, b"a" * 16, b"%s%s%s%s", b"{0}{1}"]
+
+
+def texty(r, k=None):
+    """a TEXTY byte string; with `k`, cut / repeated to exactly k bytes"""
+    b = TEXTY[r.randrange(len(TEXTY))]
+    if k is None:
+        return b
+    return (b * (k // len(b) + 1))[:k] if k else b""
+
+
 def run_references(ctx, n):
     from kmip.services.server.crypto import engine as ce
     from kmip.core import exceptions
@@ -287,8 +307,8 @@ def run_references(ctx, n):
     def rb(k):
         return bytes(r.randrange(256) for _ in range(k))
     for _ in range(n):
-        msg = rb(r.choice([0, 1, 15, 16, 17, 64, 200]))
-        key = rb(r.choice([1, 16, 20, 32, 64, 100]))
+        msg = rb(r.choice([0, 1, 15, 16, 17, 64, 200])) if r.random() < 0.8 else texty(r)
+        key = rb(r.choice([1, 16, 20, 32, 64, 100])) if r.random() < 0.7 else texty(r)
         # HMAC
         for alg, hn in MACN.items():
             count += 1
@@ -305,7 +325,7 @@ def run_references(ctx, n):
         # key derivation
         for h, hn in HN.items():
             ln = r.choice([1, 16, 20, 32])
-            salt = rb(8)
+            salt = rb(8) if r.random() < 0.8 else texty(r)
             it = r.choice([1, 2, 50])
             count += 4
             got = eng.derive_key(en.DerivationMethod.PBKDF2, ln, key_material=key, hash_algorithm=h, salt=salt, iteration_count=it)
@@ -367,7 +387,8 @@ def run_reference_repeats(ctx):
         return bytes(r.randrange(256) for _ in range(k))
     base = {"h": en.HashingAlgorithm.SHA_256, "key": rb(16), "salt": rb(8), "it": 2048, "ln": 24, "msg": rb(20)}
     domains = {"h": list(HN), "it": [1, 2, 999, 1000, 1001, 2048, 10000], "ln": [1, 16, 20, 24, 32, 64],
-               "salt": [rb(8), rb(8), rb(16)], "key": [rb(16), rb(16), rb(32)], "msg": [rb(20), rb(20), b""]}
+               "salt": [rb(8), rb(8), rb(16)] + [texty(r) for _ in range(4)],
+               "key": [rb(16), rb(16), rb(32)] + TEXTY, "msg": [rb(20), rb(20), b""] + [texty(r) for _ in range(4)]}
 
     def calls(a):
         hn = HN[a["h"]]
@@ -578,35 +599,50 @@ def run_server(ctx, reps):
         def get_value(uid):
             d = req([{"op": "get", "bid": None, "uid": uid, "wrap": None, "format": None, "compression": False}])[0]
             return d.get("data") or {}
-        for _ in range(reps):
+        for rep in range(reps):
             key = rb(r.choice([16, 32]))
             base = register(key, 3, 0x200 | 4 | 8)
+            dkey, dbase = key, base
+            if rep % 2 == 1:
+                # the base object is a PASSWORD: Secret Data whose bytes are text in some encoding (TEXTY)
+                dkey = texty(r)
+                res = req([{"op": "register", "bid": None, "crypto": None, "otype": 7,
+                            "tmpl": {"tnames": 0, "attrs": [attr("Cryptographic Usage Mask", {"k": "int", "v": 0x200})]},
+                            "obj": {"otype": 7, "value": dkey.hex(), "alg": None, "len": None, "format": 2, "subtype": 1}}])
+                if res[0].get("status") != "ok":
+                    ctx.report("c06:password-refused", "registering a password as Secret Data failed: %s" % res[0].get("msg"),
+                               {"kind": "server", "key": dkey.hex()})
+                    continue
+                dbase = res[0]["data"]["uid"]
+                req([{"op": "activate", "bid": None, "uid": dbase}])
             for otype in (2, 7):
                 for method in ("HASH", "HMAC", "PBKDF2", "NIST", "ENCRYPT"):
+                    if method == "ENCRYPT" and len(dkey) not in (16, 24, 32):
+                        continue
                     hcode = r.choice(sorted(HN))
                     hn = HN[hcode]
                     hl = hashlib.new(hn).digest_size
                     for nbytes in sorted(set([8, 16, hl, r.choice([1, 3, 24])])):
                         tmpl = {"tnames": 0, "attrs": [attr("Cryptographic Length", {"k": "int", "v": nbytes * 8})] +
                                 ([attr("Cryptographic Algorithm", {"k": "enum", "v": 3})] if otype == 2 else [])}
-                        it = {"op": "deriveKey", "bid": None, "otype": otype, "uids": [base], "tmpl": tmpl, "cp": {"hash": hcode}}
+                        it = {"op": "deriveKey", "bid": None, "otype": otype, "uids": [dbase], "tmpl": tmpl, "cp": {"hash": hcode}}
                         ddata, salt, iv = rb(r.choice([1, 16, 20])), rb(8), rb(16)
                         if method == "HASH":
                             it.update(method=2, ddata_hex="")
-                            ref = hashlib.new(hn, key).digest()
+                            ref = hashlib.new(hn, dkey).digest()
                         elif method == "HMAC":
                             it.update(method=3, ddata_hex=ddata.hex(), salt_hex=salt.hex())
-                            ref = ref_hkdf(hn, key, salt, ddata, nbytes)
+                            ref = ref_hkdf(hn, dkey, salt, ddata, nbytes)
                         elif method == "PBKDF2":
                             iters = r.choice([1, 3, 20])
                             it.update(method=1, salt_hex=salt.hex(), iters=iters)
-                            ref = hashlib.pbkdf2_hmac(hn, key, salt, iters, nbytes)
+                            ref = hashlib.pbkdf2_hmac(hn, dkey, salt, iters, nbytes)
                         elif method == "NIST":
                             it.update(method=5, ddata_hex=ddata.hex())
-                            ref = ref_kbkdf_counter(hn, key, ddata, nbytes)
+                            ref = ref_kbkdf_counter(hn, dkey, ddata, nbytes)
                         else:
                             it.update(method=4, ddata_hex=ddata.hex(), div_hex=iv.hex(), cp={"mode": 1, "padding": 3, "alg": 3})
-                            c = Cipher(algorithms.AES(key), modes.CBC(iv), backend=default_backend()).encryptor()
+                            c = Cipher(algorithms.AES(dkey), modes.CBC(iv), backend=default_backend()).encryptor()
                             pad = 16 - len(ddata) % 16
                             ref = c.update(ddata + bytes([pad]) * pad) + c.finalize()
                         count += 1
@@ -615,21 +651,21 @@ def run_server(ctx, reps):
                             if nbytes <= len(ref):
                                 ctx.report("c06:server-derive-refused:%s" % method,
                                            "DeriveKey %s/%s for %d bytes of object type %d failed: %s"
-                                           % (method, hn, nbytes, otype, res.get("msg")), {"kind": "server", "item": it, "key": key.hex()})
+                                           % (method, hn, nbytes, otype, res.get("msg")), {"kind": "server", "item": it, "key": dkey.hex()})
                             continue
                         got = get_value(res["data"]["uid"])
                         val = bytes.fromhex(got.get("value") or "")
                         if len(val) != nbytes:
                             ctx.report("c06:derived-length:%s:%d" % (method, otype),
                                        "DeriveKey %s for %d bytes of object type %d stored %d bytes"
-                                       % (method, nbytes, otype, len(val)), {"kind": "server", "item": it, "key": key.hex()})
+                                       % (method, nbytes, otype, len(val)), {"kind": "server", "item": it, "key": dkey.hex()})
                         elif val != ref[:nbytes]:
                             ctx.report("c06:derived-differs-from-reference:%s:%d" % (method, otype),
                                        "DeriveKey %s/%s output differs from the independent reference" % (method, hn),
-                                       {"kind": "server", "item": it, "key": key.hex()})
+                                       {"kind": "server", "item": it, "key": dkey.hex()})
                         if otype == 2 and got.get("len") != nbytes * 8:
-                            ctx.report("c06:derived-length-attribute", "derived key reports length %s for %d bytes"
-                                       % (got.get("len"), nbytes), {"kind": "server", "item": it, "key": key.hex()})
+                            ctx.report("c06:derived-length-attribute", "derived dkey reports length %s for %d bytes"
+                                       % (got.get("len"), nbytes), {"kind": "server", "item": it, "key": dkey.hex()})
             # DeriveKey by ENCRYPT over the block cipher modes, with and without an Initialization Vector: a derived
             # key is a function of the request (two identical requests give the same material); where the stated
             # parameters determine the cipher completely (IV given, or ECB) it equals the independent reference
